@@ -141,6 +141,14 @@ func c19Data(seed int64, nrec int, v6 bool, poisonAt int) (*entities.Message, []
 		} else {
 			s, d := net.IPv4(10, byte(r.Uint32()), byte(r.Uint32()), byte(r.Uint32())).To4(), net.IPv4(172, byte(r.Uint32()), byte(r.Uint32()), byte(r.Uint32())).To4()
 			c.srcIP, c.dstIP = s.String(), d.String()
+			// records built in the same program (net.ParseIP, net.IPv4) carry IPv4 addresses in
+			// their 16-byte form; decoded ones in the 4-byte form: both are the same address
+			switch r.IntN(4) {
+			case 0:
+				s = s.To16()
+			case 1:
+				s, d = s.To16(), d.To16()
+			}
 			els = append(els, entities.NewIPAddressInfoElement(ie("sourceIPv4Address", I), s), entities.NewIPAddressInfoElement(ie("destinationIPv4Address", I), d))
 		}
 		els = append(els,
